@@ -414,7 +414,8 @@ func checkInjectorCalls(fset *token.FileSet, pkg *types.Package, pos token.Pos, 
 					fset.Position(pos),
 					fmt.Errorf("inject %s: provider for %s uses unexported identifier %s.%s", name, ts, c.pkg.Name(), c.name)))
 			}
-			if !importableFrom(c.pkg.Path(), pkgPath) {
+			if c.kind != selectorExpr && !importableFrom(c.pkg.Path(), pkgPath) {
+				// (Selecting a field does not mention the struct's package.)
 				ec.add(notePosition(
 					fset.Position(pos),
 					fmt.Errorf("inject %s: provider for %s is declared in internal package %s, which %s cannot import", name, ts, c.pkg.Path(), pkgPath)))
